@@ -345,29 +345,14 @@ def _increments(f, field):
 
 
 def _segment_counts(f, start, stops, events):
-    """for every acyclic path from block `start` until a block in `stops` / return, the number of
-    event blocks passed; returns set of counts (path-insensitive DFS with per-path visited set)"""
-    counts = set()
-    todo = [(start, frozenset(), 0)]
-    n = 0
-    while todo:
-        b, seen, c = todo.pop()
-        n += 1
-        if n > 200000:
-            raise RuntimeError("segment enumeration too large in %s" % f.npath)
-        if b in seen:
-            continue
-        if b in events:
-            c += events[b]
-        if b in stops or f.blocks[b]["term"]["k"] == "return":
-            counts.add(c)
-            continue
-        succ = f.succ(b)
-        if not succ:
-            continue
-        for s in succ:
-            todo.append((s, seen | {b}, c))
-    return counts
+    """set of event counts over all paths from `start` to the next stop block / return (dataflow
+    over the region with inner back edges cut; see c20._segment_events)"""
+    from .c20 import _segment_events
+    ev = {b: {"e": n} for b, n in events.items()}
+    if not ev:
+        ev = {}
+    keys, outs = _segment_events(f, start, set(stops), ev if ev else {-1: {"e": 0}})
+    return {cnt[0] for how, cnt in outs}
 
 
 def r6_5(ctx):
